@@ -221,7 +221,7 @@ func runC07(c *Check) {
 					c.Ok("R2", key+"-on-fresh-literal", s.St.Pos(), "provenance", "possibly-true Safe stored on a state built in this function")
 					continue
 				}
-				ok, w := mustPass(s.St, unsafeIsFalse(s.Obj))
+				ok, w := possiblyTrueBehind(s.St, s.St.Val, unsafeIsFalse(s.Obj), 0)
 				c.Decide(ok, "R2", key+"-only-if-not-unsafe", s.St.Pos(), "edge-cutset", w,
 					"a possibly-true Safe is stored on a stored state only behind UnSafe==false of that state",
 					"Safe may be set on a state loaded from storage without checking that it is not already unsafe (a tx reported unsafe could be reported safe again, or carry both flags)")
@@ -309,6 +309,10 @@ func runC07(c *Check) {
 
 	// ---- R6 (shared with C03.R10, added after seeded round 2)
 	c.ruleRemoveReportsBody("R6")
+	c.ruleTrustedOnlyFromTrustedSource("R8")
+	c.ruleLoopVisitsAll("R7", "spynode.(*Node).checkTxDelays", func(v ssa.Value) bool {
+		return derivesFromCall(v, "(*storage.TxRepository).GetNewSafe") != nil
+	}, "newly-safe-tx", "the loop over the txs whose delay has passed can be left early: the txs after that point were already marked safe in the repository by GetNewSafe and are never returned again, so they are never reported safe")
 
 	// ---- R5 who may write unconfirmedTx flags
 	allowedW := map[string]string{
@@ -347,4 +351,40 @@ func runC07(c *Check) {
 		}
 	}
 	c.Min("R5", "stores to unconfirmedTx flags", n5, 8)
+}
+
+// possiblyTrueBehind: every way the bool v used at `in` can be something other than the constant
+// false lies behind a guard edge. A value chosen on different paths (phi) is decided per incoming
+// edge: the constant false needs nothing, any other input needs the guard on every path to the
+// point where it is chosen (the choosing edge itself counts).
+func possiblyTrueBehind(in ssa.Instruction, v ssa.Value, guard EdgePred, depth int) (bool, []string) {
+	if b, isC := isConstBool(v); isC && !b {
+		return true, nil
+	}
+	if phi, ok := v.(*ssa.Phi); ok && depth < 5 {
+		B := phi.Block()
+		for i, e := range phi.Edges {
+			p := B.Preds[i]
+			if b, isC := isConstBool(e); isC && !b {
+				continue
+			}
+			// the choosing edge itself
+			if iff, ok := lastIf(p); ok {
+				chosen := false
+				for br, sx := range p.Succs {
+					if sx == B && guard(iff, br) {
+						chosen = true
+					}
+				}
+				if chosen {
+					continue
+				}
+			}
+			if ok, w := possiblyTrueBehind(p.Instrs[len(p.Instrs)-1], e, guard, depth+1); !ok {
+				return false, w
+			}
+		}
+		return true, nil
+	}
+	return mustPass(in, guard)
 }
